@@ -70,6 +70,7 @@ type frame struct {
 	phitemps         []value // temporaries for parallel phi assignment
 	fileOverride     string  // file name reported by the runtime.Caller stub
 	callpos          token.Pos
+	goexit           bool // synthetic root of a spawned goroutine (stands for runtime.goexit)
 }
 
 func (fr *frame) get(key ssa.Value) value {
@@ -540,7 +541,7 @@ func callSSA(i *interpreter, caller *frame, callpos token.Pos, fn *ssa.Function,
 	if fn.Parent() == nil {
 		name := fn.String()
 		if fn.Synthetic == "package initializer" {
-			if caller != nil && caller.fn.Synthetic == "package initializer" {
+			if caller != nil && caller.fn != nil && caller.fn.Synthetic == "package initializer" {
 				return nil // dependencies are initialised lazily
 			}
 		}
